@@ -341,6 +341,12 @@ def _one(res, case, L, t, partT, partB, strand, axis, key, oname, tdim, order, d
                   {"got": gorder, "exp_payload_order": payload_cmp, "order": order})
         return False
     ev, sv = vals
+    if order.get("type") == "opposing_insertion" and order.get("measure") == "population":
+        # population estimates of a *difference* are NaN in public, the sort uses the hidden
+        # proportion (known finding KF-C08-population-difference-subtotals): own key
+        osubs_ = expect.resolved_subtotals(o, od, trB.get(okey))
+        if any(s_["id"] == order.get("insertion_id") and s_["subtrahends"] for s_ in osubs_):
+            order = dict(order, measure="population@difference_insertion")
     res.check("same_set", sorted(gorder) == sorted(payload_cmp) or (
         set(gorder) == set(payload_cmp) and len(gorder) == len(payload_cmp)),
         "same_set/%s" % oname, {"got": gorder, "exp_set": sorted(payload_cmp)})
